@@ -284,4 +284,15 @@ theorem emitted_arguments_denote_parameters (hnum : ∀ x, IsNumeral (showNum x)
 
 end Decode
 
+/-! non-vacuity of the two hypotheses on the number printer: the integers below 2^53, printed in
+decimal and read back by `readNat`, satisfy both -/
+def Small := { n : Nat // n < 2 ^ 53 }
+def showSmall (x : Small) : List Char := natDigits x.1
+def readSmall (t : List Char) : Option Small :=
+  (readNat t).bind fun n => if h : n < 2 ^ 53 then some ⟨n, h⟩ else none
+example : (∀ x : Small, IsNumeral (showSmall x) = true) ∧ (∀ x : Small, readSmall (showSmall x) = some x) := by
+  refine ⟨fun x => ParserLemmas.natDigits_numeral x.1, fun x => ?_⟩
+  obtain ⟨n, hn⟩ := x
+  simp [readSmall, showSmall, DecodeLemmas.readNat_natDigits n (small_ints_exact n hn), hn]
+
 end ScadVerif.C02
